@@ -32,7 +32,34 @@ def blocks(m, kinds=None):
     return [b for b in out if kinds is None or b[0] in kinds]
 
 
+DECLARING = ("gdecl", "ldecl", "params", "system")
+
+
+def decl_blocks(m):
+    """the declaring text blocks: global declarations, every template's parameters and local declarations, the system block"""
+    out = [("gdecl", 0, 0), ("system", 0, 0)]
+    for ti, t in enumerate(m["templs"]):
+        if t["params"]:
+            out.append(("params", ti, 0))
+        if t["ldecl"]:
+            out.append(("ldecl", ti, 0))
+    return out
+
+
+def _decl_get(m, b):
+    import docgen
+    kind, ti, _ = b
+    if kind == "gdecl":
+        return docgen.PREAMBLE + "".join(d + "\n" for d in m["gdecl"])
+    if kind == "system":
+        return docgen.system_text(m)
+    t = m["templs"][ti]
+    return ", ".join(t["params"]) if kind == "params" else "\n".join(t["ldecl"])
+
+
 def get_text(m, b):
+    if b[0] in DECLARING:
+        return _decl_get(m, b)
     kind, ti, idx = b
     t = m["templs"][ti]
     return (t["locs"][idx] if kind in ("inv", "rate") else t["edges"][idx])[kind]
@@ -41,6 +68,15 @@ def get_text(m, b):
 def set_text(m, b, text):
     m = json.loads(json.dumps(m))
     kind, ti, idx = b
+    if kind == "gdecl":
+        m["_decl_text"] = text
+        return m
+    if kind == "system":
+        m["_system_text"] = text
+        return m
+    if kind in ("params", "ldecl"):
+        m["templs"][ti]["_params_text" if kind == "params" else "_ldecl_text"] = text
+        return m
     t = m["templs"][ti]
     (t["locs"][idx] if kind in ("inv", "rate") else t["edges"][idx])[kind] = text
     return m
@@ -48,6 +84,14 @@ def set_text(m, b, text):
 
 def block_path(m, b):
     kind, ti, idx = b
+    if kind == "gdecl":
+        return "/nta/declaration"
+    if kind == "system":
+        return "/nta/system"
+    if kind == "params":
+        return "/nta/template[%d]/parameter" % (ti + 1)
+    if kind == "ldecl":
+        return "/nta/template[%d]/declaration" % (ti + 1)
     t = m["templs"][ti]
     if kind in ("inv", "rate"):
         l = t["locs"][idx]
@@ -76,7 +120,9 @@ def single_faults(text, kind):
         out.append(("open-comment", n, pre + "/* " + tk + post))
         if n < len(toks) - 1:
             out.append(("truncate", n, text[:e]))
-        if re.match(r"[A-Za-z_]", tk) and tk not in KEYWORDS:
+        binder = n + 1 < len(toks) and toks[n + 1][0] == ":"        # `forall (q : T)`, `k : int[0,2]`: a declaration, not a use
+        typepos = n > 0 and toks[n - 1][0] == ":"                  # the type of a binder: not an identifier use either
+        if re.match(r"[A-Za-z_]", tk) and tk not in KEYWORDS and not binder and not typepos:
             out.append(("undeclared", n, pre + "nosuch_zz" + post))
             if tk in WRONG:
                 out.append(("wrong-type", n, pre + WRONG[tk] + post))
